@@ -106,6 +106,13 @@ def run(eng, ctx):
             parsed = t[1][1] if t[0] == "tuple" and len(t[1]) == 2 else None
             ctx.check(raw is not None and not mentions(raw, isopt), "C17.D2", asm.qualname, "raw frame independent of the options", expected="same bytes whatever validate/parsed", found=show(raw)[:80] if raw else show(t)[:80], **eng.loc(asm, e.node))
             okp = parsed is not None and parsed[0] == "ite" and parsed[1] == ("field", pf) and parsed[3] == ("const", None) and parsed[2][0] == "call" and is_self_call(parsed[2], "parse")
+            if not okp and parsed is not None:
+                # early-return form: one return per value of the option
+                pol_ = [pol for c, pol in e.guards if c == ("field", pf)]
+                if pol_ == [True]:
+                    okp = parsed[0] == "call" and is_self_call(parsed, "parse")
+                elif pol_ == [False]:
+                    okp = parsed == ("const", None)
             ctx.check(bool(okp), "C17.D2", asm.qualname, "parsed element", expected=f"parse(raw, ...) if self.{pf} else None", found=show(parsed)[:80] if parsed else "-", **eng.loc(asm, e.node))
         elif dep_c or (e.kind in ("store", "setitem", "raise") and True and dep_c):
             nd2 += 1
